@@ -205,7 +205,13 @@ func parseWKT(s string) (vkit.GJ, error) {
 }
 
 func run(c Case) (v vkit.Verdict) {
-	g := c.G.Geom()
+	g, sameG := vkit.SharedGeom(c.G)
+	defer func() {
+		if m := sameG(); m != "" && !v.Bad {
+			v = v.Fail("the call changed the geometry it was given (point lists are sub-slices of one array with spare capacity): %s", m)
+		}
+	}()
+
 	v.Class(c.G.T)
 	if c.Neg {
 		v.Class("negative")
